@@ -1,7 +1,7 @@
 (* C10 — Gradient-based optimizers report consistent solutions and make progress.
    Only statements + `exact`; proofs live in C10Proofs.v, C10LsProofs.v, C10BfgsProofs.v, C10LbfgsProofs.v, C10LbfgsBoxProofs.v,
-   C10LbfgsDescentProofs.v, C10AdamRpropProofs.v, C10CgProofs.v, the executable model in C10Model.v, C10LsModel.v and - written once over an abstract
-   number type (C10Gen.v, C10AdamRprop.v) and instantiated with the exact rationals - C10LbfgsModel.v, C10AdamRprop.v.
+   C10LbfgsDescentProofs.v, C10AdamRpropProofs.v, C10CgProofs.v, C10TrustRegionProofs.v, the executable model in C10Model.v, C10LsModel.v and - written once over an abstract
+   number type (C10Gen.v, C10AdamRprop.v, C10TrustRegion.v) and instantiated with the exact rationals - C10LbfgsModel.v, C10AdamRprop.v, C10TrustRegion.v.
 
    PROPERTY (properties.jsonl): after init and after every step the reported best value equals the objective
    at the reported best point, the point is finite and (box-constrained objectives) feasible; line-search
@@ -123,6 +123,42 @@
          1e-4 t g'd, i.e. an increase below 1e-4 t g'd (seen once in 18000 CG steps on indefinite quadratics: 1.8e-15), and
          otherwise keeps the point; no increase was observed on the generated family of the property.
 
+   Part 7: trust-region Newton (TrustRegionNewton.cpp; C10TrustRegion.v, C10TrustRegionProofs.v).  The model mirrors, as coded after
+   the repair fd35712b, borderDistance, errorDifference, trustRegionCG (Steihaug CG: the loop with its four exits and the
+   10 n iteration limit) and TrustRegionNewton::init / step (forcing tolerance min(0.5, sqrt|g|) |g|, predicted and actual change,
+   rho, radius / 4 resp. * 2, acceptance iff rho >= m_minImprovementRatio, ONE evalDerivative call after acceptance), written once
+   over an abstract number type; operator() and evalDerivative are two unrelated oracles, std::sqrt an arbitrary function:
+     * C10_trn_state_consistent (+ _as_coded)   for EVERY number type and EVERY answer of the sub-problem solver in every step:
+         after init and after every step value / gradient / Hessian are the ones evalDerivative returns at the reported point,
+         m_minImprovementRatio is the 0.1 set by init.  (Pure bookkeeping: holds for IEEE doubles incl. NaN answers.)
+     * C10_trn_radius_positive, C10_trn_radius_factors   exact rationals, every solver answer: the radius stays positive and
+         changes by 1/4, 1 or 2 only.
+     * C10_trn_accepted_step_follows_prediction, C10_trn_rejected_step_keeps_solution, C10_trn_step_never_increases_partial   what
+         the acceptance rule guarantees for every solver answer (objective coherent, ratio > 0): an accepted step changes the
+         value strictly in the direction of the PREDICTED change; the sign of the prediction is NOT tested by the code, so the
+         statement "a step never increases the value" holds under the guard "predicted change <= 0" (PARTIAL) and is false
+         without it (second conjunct of the first theorem: a positive prediction that comes true is accepted).
+     * C10_trn_cg_inside_region_and_predicts_decrease   trustRegionCG as repaired, every symmetric matrix (definite or not),
+         every gradient / tolerance / positive radius: the step lies inside the trust region (on the border after
+         borderDistance) and the predicted change is <= 0 - this discharges the guard.  Invariants proved for the loop:
+         residual = gradient + H step, residual'direction = -|residual|^2, |step| < radius, model value non-increasing, the
+         positive root tau of the border equation with tau <= alpha.  Hypothesis: std::sqrt is right at the ONE number whose
+         root borderDistance takes in that call (satisfiable: C10_ex_trn_cg_border_second_iteration).
+     * C10_trn_run_never_increases   the clauses of the property for whole runs of the model class: consistent, radius positive,
+         trial point inside the trust region, value never increases (objective coherent with symmetric Hessians; sqrt right at
+         the root of each step).  Satisfiable: C10_ex_trn_hypotheses_satisfiable.
+     * REGRESSION WITNESSES of the repaired defect (borderDistance took +p/2 + sqrt(..), the wrong root, harmless only in the first
+         CG iteration): C10_ex_trn_old_border_leaves_region_refuted (exact root, step of length > 3 with radius 25/12),
+         C10_ex_trn_old_formula_increases_value_refuted (the failing input of the defect: f = (x^2+16y^2)/2 from (3,-1), radius 2:
+         second step from < 4 to > 7), C10_ex_trn_repaired_run_decreases.
+     OUTSIDE AN ORDERED FIELD: NaN.  At an exactly zero gradient the C++ divides 0/0 in borderDistance, evaluates the objective
+     at a NaN point and keeps the old point only because "NaN >= ratio" is false; in the rational instance 0/0 = 0 and the step
+     returns through "solution.first == 0" - the same state, for a different reason.  That the C++ behaves so is MONITORED
+     (histories started at the minimiser / continued after exact convergence) and replayed by the double instance of the model
+     (whose comparisons are the C++ operators also on NaN).  NOT PROVED: convergence; anything about rounding (observed: after ~268
+     consecutive rejections the square of the radius underflows, the CG step is empty and step() returns through
+     solution.first == 0; the radius itself stays positive).
+
    WHAT IS ONLY COMPARED (tools/c10.py, every run): the extracted model against the C++ on generated dyadic
    quadratics (exact equality of point, value, derivative, direction, step length, last point/derivative/value,
    CG counter, line-search type, BFGS matrix, L-BFGS history / m_bdiag) for a harness subclass of AbstractLineSearchOptimizer
@@ -142,6 +178,17 @@
      * Rprop: point, step sizes, last steps, derivative memory, old value (double instance: bitwise equal; rational instance:
        1e-10): four variants + two unnamed flag combinations, sign changes, clamps at minDelta / maxDelta, box constraints
        with infeasible candidates;
+     * TrustRegionNewton (real class through a subclass that supplies the init override the class lacks): EVERY single step S is
+       recomputed by the extracted tr_step from the state the C++ reports (point, value, radius, ratio, stored gradient and Hessian);
+       the double instance gets as oracles the value the C++ objective returned at its trial point and the evalDerivative result
+       after acceptance: trial point (i.e. the CG step), acceptance, new radius (exactly), new point and value must agree to 1e-9
+       (+ 16 x the distance the model's own CG step moves when every sum is accumulated in the opposite order; steps where that
+       distance exceeds 1e-3 of the step or the two orders leave the CG differently are counted, not compared; near ties of rho
+       with 0.25 / 0.75 / the ratio are counted, not compared); the rational instance (quadratics n <= 4 with short mantissas,
+       objective evaluated exactly) must agree to 1e-9 and, where the harness saw NO inexact floating-point operation in the whole
+       step (FE_INEXACT clear: stream of multiples of the identity with |gradient| a dyadic square) EXACTLY in point, value,
+       radius.  A run must exercise every case split (zero gradient, tolerance / border in the first / in a later iteration /
+       non-positive curvature exits, rho below / between / above the thresholds, accept / reject with each radius change).
    the objective oracles of the replayed step return the value / derivative the implementation reports after the step.
    The witnesses C10_ex_irprop_plus_stale_step, C10_ex_rprop_box_delta_below_min_refuted, C10_ex_cg_ascent_direction_refuted
    are run on the C++ and must give the numbers of the Examples.
@@ -163,6 +210,14 @@
    descent direction (box: not an ascent direction) and point + direction is inside the box, Rprop's step sizes are positive
    and (unconstrained) inside [minDelta, maxDelta], iRprop+ takes the coordinates back after an increase, Adam's second
    moment is not negative.
+   TrustRegionNewton, after init and after EVERY step of every history (strictly convex quadratics of condition 1..1e8 incl. badly
+   scaled ones, axis-parallel ones with integer minimiser started at / one exact Newton step from the minimiser, multiples of the
+   identity, Rosenbrock-type incl. starts in the region of negative curvature and at the optimum, indefinite / singular / linear
+   objectives; radii 1e-3..1e3, ratios 0.01..0.9; 250-900 steps, i.e. hundreds of steps past convergence): value = objective at the
+   point and stored gradient / Hessian = derivatives at the point (bitwise), finite, value never increases, the evaluated trial
+   point lies inside the trust region (up to the rounding of point + step), minimiser of strictly convex quadratics of condition
+   <= 1e4 reached within 200 steps (beyond 1e4: counted; condition 1e8 can stall when the objective's rounding noise exceeds the
+   predicted decrease of the short step the forcing tolerance accepts: every step rejected, radius -> 0).
    OBSERVED, outside the model: wlsCubicInterp returns NaN (0/0) when the two bracket ends have equal values and opposite
    slopes with the lower end rising, more generally (f2-f1)/(t2-t1) = (g1+g2)/6 with g1 >= g2; wolfecubic then evaluates
    the objective at a NaN point.  In the check this happened only along ASCENT directions (incoming g'd > 0; 4 of 60000
@@ -175,9 +230,8 @@
    proposals are the ones the formulas give; that wolfecubic's result satisfies the Wolfe conditions); rounding: every theorem is about exact rationals (floating point can lose
    y's > 0, positive definiteness, positivity of a step size after ~1075 halvings, and can put x + alpha c one ulp outside
    the bound - inside the 1e-13 slack); Adam's setters accept beta >= 1 (bias correction 1 - beta^t <= 0: division by zero /
-   sqrt of a negative number) - outside the generated configurations; TrustRegionNewton, which is
-   abstract in this tree (its init takes a non-const objective and does not override the pure virtual init): no
-   object exists to check. *)
+   sqrt of a negative number) - outside the generated configurations; TrustRegionNewton: convergence and rounding (Part 7); its
+   read / write (the class archives nothing: C18). *)
 From Coq Require Import List QArith Qreduction Qabs Bool Arith.
 From SharkV Require Import C10Model C10Proofs C10LsModel C10LsProofs C10BfgsProofs C10Gen C10LbfgsModel C10LbfgsProofs C10LbfgsBoxProofs C10LbfgsDescentProofs C10AdamRprop C10AdamRpropProofs C10CgProofs C10TrustRegion C10TrustRegionProofs.
 Import ListNotations.
